@@ -129,6 +129,8 @@ type Hist struct {
 	HeldAtEnd        []string
 	ServeErr         string
 	ServeReturned    bool
+	ServeRetStamp    int64 // when ListenAndServe returned
+	DialRefused      int   // connections a client could not open because the listener was gone
 }
 
 type clientState int
@@ -408,6 +410,12 @@ func (r *run) client(st *cstate) {
 			}
 			nc, err := simnet.Dial(s, "tcp", brokerAddr)
 			if err != nil {
+				if r.h.ServeReturned && r.h.ServerCloseCall == 0 {
+					// the library gave up listening although nobody closed the
+					// server: judged by the oracle, not an aborted run
+					r.h.DialRefused++
+					return
+				}
 				r.out.Aborted = "dial: " + err.Error()
 				return
 			}
@@ -804,6 +812,7 @@ func (r *run) director() {
 	s.Go("server", false, func() {
 		err := r.srv.ListenAndServe("tcp://" + brokerAddr)
 		h.ServeReturned = true
+		h.ServeRetStamp = s.Stamp()
 		if err != nil {
 			h.ServeErr = err.Error()
 		}
@@ -814,11 +823,12 @@ func (r *run) director() {
 		return
 	}
 	if sc.Knobs.AcceptErrs > 0 {
-		// inject temporary accept errors for the first connections
-		if l, err := simnet.Listen(s, "tcp", "probe:0"); err == nil {
-			l.Close()
-		}
+		// temporary accept errors for the first connections
 		net.InjectAcceptErrs(brokerAddr, sc.Knobs.AcceptErrs)
+	}
+	if sc.Knobs.AcceptErrNum > 0 {
+		// ... and for any later one, decided by the fault stream
+		net.InjectAcceptErrRate(brokerAddr, sc.Knobs.AcceptErrNum, 16)
 	}
 	// in-process callbacks
 	ncb := 0
@@ -863,6 +873,13 @@ func (r *run) director() {
 		}
 		if r.inprocSt == csBarrier {
 			atBarrier++
+		}
+		if r.serverBackoff() {
+			// the accept loop sleeps after a temporary error while a
+			// connection is waiting: let virtual time pass
+			if s.SleepToNextTimer() {
+				continue
+			}
 		}
 		if sleeping > 0 {
 			// let virtual time pass up to the next timer
@@ -950,6 +967,17 @@ func (r *run) director() {
 	h.HeldAtEnd = s.HeldLocks()
 }
 
+// serverBackoff reports whether the task that runs ListenAndServe is parked in
+// the back-off sleep of its accept loop.
+func (r *run) serverBackoff() bool {
+	for _, t := range r.s.Tasks() {
+		if t.Name == "server" && !t.Runnable && t.Wait == "sleep" {
+			return true
+		}
+	}
+	return false
+}
+
 // markQ records a quiescence point; it bounds acceptance windows only if no
 // reader is stalled and the broker has read everything that was sent.
 func (r *run) markQ() {
@@ -992,5 +1020,10 @@ func (r *run) closeServer() {
 	h.ServerClosedAtQ = h.ServerClosed
 	if !h.ServerClosed {
 		h.CloseStuck = simrt.FormatTasks(s.Tasks()) + fmt.Sprintf(" held locks: %v", s.HeldLocks())
+	}
+	// an accept loop that is sleeping off a temporary error notices the
+	// shutdown when its back-off (at most 1 s) is over
+	for i := 0; i < 64 && r.serverBackoff() && s.SleepToNextTimer(); i++ {
+		s.Quiesce()
 	}
 }
